@@ -66,6 +66,10 @@ Fixpoint list_eqb {A} (eqb : A -> A -> bool) (a b : list A) : bool :=
   | _, _ => false
   end.
 
+(* same length and every element of a occurs in b (the keys of a map are distinct) *)
+Definition set_eqb {A} (eqb : A -> A -> bool) (a b : list A) : bool :=
+  Nat.eqb (List.length a) (List.length b) && forallb (fun x => existsb (eqb x) b) a.
+
 Definition pair_eqb {A B} (ea : A -> A -> bool) (eb : B -> B -> bool) (x y : A * B) : bool :=
   ea (fst x) (fst y) && eb (snd x) (snd y).
 
@@ -224,7 +228,7 @@ Definition components (a b : obs) : list bool :=
     list_eqb (pair_eqb String.eqb Z.eqb) (o_consts a) (o_consts b);
     list_eqb Z.eqb (o_values a) (o_values b);
     list_eqb String.eqb (o_strings a) (o_strings b);
-    list_eqb (pair_eqb String.eqb Z.eqb) (o_vmap a) (o_vmap b);
+    set_eqb (pair_eqb String.eqb Z.eqb) (o_vmap a) (o_vmap b);     (* the oracle orders aliases by name *)
     list_eqb (pair_eqb Z.eqb String.eqb) (o_smap a) (o_smap b);
     list_eqb (pair_eqb Z.eqb (pair_eqb String.eqb Bool.eqb)) (o_points a) (o_points b);
     list_eqb (pair_eqb Z.eqb String.eqb) (o_mjson a) (o_mjson b);
@@ -268,10 +272,16 @@ Definition declared_obs (c : case) (o : obs) : list (string * Z) :=
 
 Definition trim (c : case) (n : string) : string := trim_prefix n (c_type c).
 
-Definition name_of_val (D : list (string * Z)) (x : Z) : option string :=
-  match filter (fun nv => snd nv =? x) D with
-  | nv :: _ => Some (fst nv)
-  | [] => None
+(* the name that stands for a value: its first declared constant (Model/Enum.first_name) *)
+Definition name_of_val (D : list (string * Z)) (x : Z) : option string := first_name D x.
+
+(* remove repeated values from a sorted list *)
+Fixpoint dedup_z (prev : option Z) (l : list Z) : list Z :=
+  match l with
+  | [] => []
+  | x :: l' =>
+      if match prev with Some b => b =? x | None => false end
+      then dedup_z (Some x) l' else x :: dedup_z (Some x) l'
   end.
 
 (* specification of the -bit String(): declared -> name; a non-empty union of
@@ -296,16 +306,16 @@ Definition Pb04 (c : case) (o : obs) : bool :=
   let D := declared_obs c o in
   let vals := map snd D in
   o_built o
-  && list_eqb Z.eqb (o_values o) (sort_z vals)                        (* ascending, exactly the declared values *)
+  && list_eqb Z.eqb (o_values o) (dedup_z None (sort_z vals))         (* ascending, each declared value once *)
   && Nat.eqb (List.length (o_strings o)) (List.length (o_values o))
-  && list_eqb String.eqb (o_strings o)                               (* index-aligned *)
+  && list_eqb String.eqb (o_strings o)                               (* index-aligned: the first declared name *)
        (map (fun v => match name_of_val D v with Some n => trim c n | None => "?" end) (o_values o))
-  && Nat.eqb (List.length (o_smap o)) (List.length D)
+  && Nat.eqb (List.length (o_smap o)) (List.length (o_values o))
   && Nat.eqb (List.length (o_vmap o)) (List.length D)
-  && forallb (fun nv =>                                               (* constant -> trimmed name -> constant *)
-       match assoc_z (snd nv) (o_smap o), assoc_s (trim c (fst nv)) (o_vmap o) with
-       | Some s, Some v => String.eqb s (trim c (fst nv)) && (v =? snd nv)
-       | _, _ => false
+  && forallb (fun nv =>                     (* value -> first declared name (trimmed); every trimmed name -> value *)
+       match assoc_z (snd nv) (o_smap o), assoc_s (trim c (fst nv)) (o_vmap o), name_of_val D (snd nv) with
+       | Some s, Some v, Some n1 => String.eqb s (trim c n1) && (v =? snd nv)
+       | _, _, _ => false
        end) D
   && forallb (fun xo =>
        let '(x, (s, b)) := xo in
